@@ -17,6 +17,7 @@ import (
 	"io"
 	"os"
 	"regexp"
+	"runtime"
 	"sort"
 	"strconv"
 	"strings"
@@ -70,6 +71,7 @@ func vaTags(text string) []string {
 }
 
 func (r *vaRec) add(ctx context.Context, line string) {
+	runtime.Gosched() // widen the windows in which concurrent calls interleave
 	key, _ := ctx.Value(vaKey{}).(string)
 	r.mu.Lock()
 	if key == "" {
